@@ -252,6 +252,7 @@ struct Rw<'a> {
     index1: Vec<String>,
     boolor: bool,
     shl_total: bool,
+    opmethods: bool,
     collect_via: Option<String>,
     fold_loops: bool,
     for_range: bool,
@@ -779,6 +780,20 @@ impl<'a, 'b, 'ast> Visit<'ast> for Collector<'a, 'b> {
                     let r = e.span().byte_range();
                     self.edits.push((r.start, r.end, t));
                 }
+            }
+            Expr::MethodCall(c) if rw.opmethods && ((c.method == "neg" && c.args.is_empty()) || ((c.method == "add" || c.method == "sub" || c.method == "mul") && c.args.len() == 1 && matches!(&c.args[0], Expr::Reference(_)))) => {
+                // R46 (option opmethods=1): the operator-trait methods written out as method calls on machine integers (macro-generated code:
+                //   `a.add(&b)`, `a.sub(&b)`, `a.mul(&b)`, `a.neg()`) -> the operators they are (`a + b`, `a - b`, `a * b`, `-a`); on the primitive
+                //   integer types `Add<&i32> for i32` etc. are defined as the operator on the dereferenced operand
+                let recv = rw.render_expr(&c.receiver);
+                let text = if c.method == "neg" { format!("(-({recv}))") } else {
+                    let op = if c.method == "add" { "+" } else if c.method == "sub" { "-" } else { "*" };
+                    let rhs = if let Expr::Reference(r) = &c.args[0] { rw.render_expr(&r.expr) } else { String::new() };
+                    format!("(({recv}) {op} ({rhs}))")
+                };
+                rw.count("R46");
+                let sp = e.span().byte_range();
+                self.edits.push((sp.start, sp.end, text));
             }
             Expr::Binary(b) if rw.shl_total && matches!(b.op, BinOp::Shl(_)) => {
                 // R40 (option shl_total=1): `a << n` whose amount is not bounded by an assert -> `shl_any_(a, n)`: the shifted value for n below the
@@ -1685,6 +1700,7 @@ fn extract_body(repo: &Path, source: &str, d: &Directive, variant: &str) -> Resu
         index1: d.opts.get("index1").map(|s| s.split(',').map(|x| x.to_string()).collect()).unwrap_or_default(),
         boolor: d.opts.get("boolor").map(|v| v == "1").unwrap_or(false),
         shl_total: d.opts.get("shl_total").map(|v| v == "1").unwrap_or(false),
+        opmethods: d.opts.get("opmethods").map(|v| v == "1").unwrap_or(false),
         collect_via: d.opts.get("collect_via").cloned(),
         fold_loops: d.opts.get("fold_loops").map(|v| v == "1").unwrap_or(false),
         for_range: d.opts.get("for_range").map(|v| v == "1").unwrap_or(false),
